@@ -37,4 +37,13 @@ c16_key_copy_after_go C16
 c04_global_lock_during_sync_build C04
 c07_walk_holds_lock_during_callback C07
 c07_nil_value_is_miss C07
+revert_failure_ttl_from_ctx C05
+revert_empty_callbacks C17
+revert_index_ctor_alias C15
+revert_ttl_overflow C10
+revert_hash_reset C14
+revert_observe_mutability_nil_stats C02 C04 C06
+revert_log_live_entry C16
+revert_ctx_ttl_atomic C16
+revert_invalidator_check_unlocked C16
 LIST
